@@ -597,12 +597,37 @@ def _(E, m, a, c0):
     x = E.deref(a[0])
     if E.branch(a[1] == 0): raise Abort('BigInt division by zero')
     E.wr(a[0], tdiv(x, a[1])); return UNIT
+def _hid(E, state):
+    """identity of the hasher a write goes to (None = the harness's outer recorder)"""
+    h = E.deref(state)
+    return h.fields[0] if isinstance(h, Adt) and h.fields else None
 @pattern(r'<(BigInt|BigUint) as Hash>::hash')
-def _(E, m, a, c0): E.log.append(('h', 'bigint', E.deref(a[0]))); return UNIT
+def _(E, m, a, c0): E.log.append(('h', 'bigint', E.deref(a[0]), _hid(E, a[1]))); return UNIT
 @pattern(r'<(H|.*) as Hasher>::write_(i64|u64|u8|usize|u32|i32|isize)')
-def _(E, m, a, c0): E.log.append(('h', m.group(2), a[1])); return UNIT
+def _(E, m, a, c0): E.log.append(('h', m.group(2), a[1], _hid(E, a[0]))); return UNIT
 @pattern(r'<(u64|i64|usize|u8|bool|char|u32) as Hash>::hash')
-def _(E, m, a, c0): E.log.append(('h', m.group(1), E.deref(a[0]))); return UNIT
+def _(E, m, a, c0): E.log.append(('h', m.group(1), E.deref(a[0]), _hid(E, a[1]))); return UNIT
+# a real hasher inside the code under test (the order-independent hash of dict-valued keys): finish() is an uninterpreted
+# function of the sequence of writes it received
+UF_HSTEP = {}
+@pattern(r'(?:std::collections::hash_map::|std::hash::)?DefaultHasher::new|<(?:std::collections::hash_map::)?DefaultHasher as Default>::default')
+def _(E, m, a, c0):
+    E.fresh_n += 1; return Adt('Hasher', None, [E.fresh_n])
+@pattern(r'<(?:std::collections::hash_map::|std::hash::)?DefaultHasher as Hasher>::finish')
+def _(E, m, a, c0):
+    hid = _hid(E, a[0]); h = z3.IntVal(0)
+    for l in E.log:
+        if l[0] == 'h' and len(l) > 3 and l[3] == hid:
+            f = UF_HSTEP.setdefault(l[1], z3.Function('hstep_' + l[1], ZI, ZI, ZI)); h = f(h, l[2])
+    r = z3.Function('hfinish', ZI, ZI)(h); E.assume(r >= 0, r <= (1 << 64) - 1)
+    return r
+@pattern(r'core::num::<impl (u64|u32|usize)>::rotate_(left|right)')
+def _(E, m, a, c0):
+    bits = 32 if m.group(1) == 'u32' else 64
+    k = z3.simplify(a[1])
+    if not z3.is_int_value(k): raise Missing('rotate by a symbolic amount')
+    bv = z3.Int2BV(a[0], bits); r = z3.RotateLeft(bv, k.as_long() % bits) if m.group(2) == 'left' else z3.RotateRight(bv, k.as_long() % bits)
+    return z3.BV2Int(r, is_signed=False)
 @pattern(r'<f64 as ToBigInt>::to_bigint|<f64 as ToPrimitive>::to_(i64|isize|usize|u64|i32|u32|u8)')
 def _(E, m, a, c0):
     f = E.deref(a[0])
